@@ -111,7 +111,7 @@ def generate(ctx):
         if ctx.quick() and i % 3 != ctx.seed % 3:
             continue
         yield _mk_case(spec, rng, 'sweep')
-    n = ctx.pick(260, 6000)
+    n = ctx.pick(800, 9000)
     for i in range(n):
         r = ctx.rng.fork('model', i)
         big = (i % 5 == 4) or (not ctx.quick() and i % 2 == 0)
